@@ -69,8 +69,15 @@ func lifecycleCase(c *mon.Ctx, r *mon.Rand, prop string) {
 	}
 	c.Eval(1)
 	bad := func(sig, why string) {
-		if prop == "C03" && !strings.Contains(why, "histogram") {
-			return // C03 looks at the histogram evidence of these histories only
+		// each property looks at its own kind of evidence in these histories (C07,
+		// "closing a scope harms nothing", at all of it)
+		switch {
+		case prop == "C03" && !strings.Contains(why, "histogram"):
+			return
+		case prop == "C01" && strings.HasPrefix(why, "gauge"):
+			return
+		case prop == "C02" && (strings.HasPrefix(why, "counter") || strings.HasPrefix(why, "histogram")):
+			return
 		}
 		c.Violation(sig, map[string]interface{}{"why": why, "case": desc()})
 	}
@@ -101,10 +108,17 @@ func lifecycleCase(c *mon.Ctx, r *mon.Rand, prop string) {
 			var sc tally.Scope
 			var prefix string
 			var tags map[string]string
-			if r.Bool() {
-				sc, prefix, tags = root.SubScope(name), name, tagsOf(nil)
-			} else {
-				sc, prefix, tags = root.Tagged(map[string]string{"g": name}), "", tagsOf(map[string]string{"g": name})
+			derive := func() tally.Scope { return root.SubScope(name) }
+			switch {
+			case len(opts.Tags) > 0 && r.Chance(1, 3):
+				// a pure override of a root tag (adds no key of its own)
+				derive = func() tally.Scope { return root.Tagged(map[string]string{"rt": name}) }
+				sc, prefix, tags = derive(), "", tagsOf(map[string]string{"rt": name})
+			case r.Bool():
+				sc, prefix, tags = derive(), name, tagsOf(nil)
+			default:
+				derive = func() tally.Scope { return root.Tagged(map[string]string{"g": name}) }
+				sc, prefix, tags = derive(), "", tagsOf(map[string]string{"g": name})
 			}
 			key := func(m string) string { return mon.IdentKey(mon.RefName(prefix, ".", m), tags) }
 			h := obtain(sc)
@@ -125,7 +139,31 @@ func lifecycleCase(c *mon.Ctx, r *mon.Rand, prop string) {
 			// close it; the handles stay with the application
 			sc.(io.Closer).Close()
 			ops = append(ops, "close "+name)
-			if r.Chance(2, 3) {
+			if r.Chance(1, 4) {
+				// requested again at once, before any pass: the registry reports the
+				// closed scope on the spot - everything recorded before the Close is
+				// delivered now, the gauge's last value included
+				fresh2 := obtain(derive())
+				_ = fresh2
+				tally.VerifReportPass(root)
+				ops = append(ops, "derive "+name+" again at once, pass")
+				for _, rr := range []*mon.Recorder{rec, recB} {
+					if rr == nil {
+						continue
+					}
+					a := rr.GetAgg(key("g"))
+					ac := rr.GetAgg(key("c"))
+					if a.N == 0 && ac.N == 0 && recB != nil {
+						continue // the other reporter kind is the one in use
+					}
+					if a.LastBits != math.Float64bits(v) {
+						bad("stale-value", fmt.Sprintf("gauge %q: updated to %v, scope closed and requested again before any pass: the most recent delivered value is %v (%d deliveries)", key("g"), v, math.Float64frombits(a.LastBits), a.N))
+					}
+					if ac.Sum != wantCtr[key("c")] {
+						bad("conservation-lifecycle", fmt.Sprintf("counter %q: %d delivered after the closed scope was requested again, %d added before its Close", key("c"), ac.Sum, wantCtr[key("c")]))
+					}
+				}
+			} else if r.Chance(2, 3) {
 				tally.VerifReportPass(root) // the pass drops the closed scope
 				ops = append(ops, "pass")
 			}
@@ -167,12 +205,7 @@ func lifecycleCase(c *mon.Ctx, r *mon.Rand, prop string) {
 			ops = append(ops, "pass")
 			// second life: the same identity derived again is a working scope
 			if r.Bool() {
-				var sc2 tally.Scope
-				if prefix != "" {
-					sc2 = root.SubScope(name)
-				} else {
-					sc2 = root.Tagged(map[string]string{"g": name})
-				}
+				sc2 := derive()
 				h2 := obtain(sc2)
 				seq++
 				h2.c.Inc(seq)
